@@ -111,7 +111,7 @@ func TestVerif_C09_UtilPacketsBytes(t *testing.T) {
 	defer restore()
 	r.Rule("modes {request limiter, byte limiter via AcquireNPermission, MultiRateLimiter [1,bytes]} x requestRate 1-5 x bytesRate 1-200 x period 1-3 s, timeout 0; 60 packets of sizes {1, <=rate/2, rate-1, rate, rate+1, oversize up to 3x rate} with the same gap kinds as the sequential part; the harness books admitted packets and bytes per aligned period; distinct = (mode, outcome class, gap kind, size class)")
 	r.Assume("an oversize packet's overshoot may either be forgiven at the period end or charged to following periods: a rejection is only judged wrongful when both readings leave spare capacity")
-	n := r.N(2000, 60000)
+	n := r.N(6000, 150000)
 	for i := 0; i < n; i++ {
 		if !r.Mine(i) {
 			continue
@@ -206,7 +206,7 @@ func TestVerif_C09_UtilMultiUnit(t *testing.T) {
 	clk, restore := c09Install()
 	defer restore()
 	r.Rule("MultiRateLimiter with 2-3 dimensions (limits 1-5 each), counts all 1, policies and gaps as in the sequential part; judged with one book whose limit is the smallest dimension limit (releases per aligned period <= every dimension's limit, 0<=wait<=timeout, immediate when the period has a spare permit in every dimension, rejection only when full through the whole-period horizon); distinct = (timeout class, limits, outcome, gap kind)")
-	n := r.N(1500, 45000)
+	n := r.N(4000, 100000)
 	for i := 0; i < n; i++ {
 		if !r.Mine(i) {
 			continue
